@@ -280,12 +280,17 @@ def run_case(ctx, i, rng):
                 ffp = bool(rng.random() < 0.5)
                 kw = {"max_iter": int(rng.integers(1, 4)), "tol": float(rng.choice([0.0, 1e-4])), "fix_first_pose": ffp}
                 before = snap(g)
+                del M.PROCESS_LEAKS[:]
                 try:
                     M.quiet_optimize(g, **kw)
                 except Exception as ex:
                     ctx.count("optimize_exception:" + type(ex).__name__)
                 after = snap(g)
                 d = diff_snap(before, after, ignore_poses=True, allow_first_fixed=ffp)
+                if M.PROCESS_LEAKS:
+                    # ... and nothing outside the graph either: numpy error mode / print options, warning filters, logger levels
+                    d.append("process-wide setting changed: %s" % (M.PROCESS_LEAKS[0],))
+                    del M.PROCESS_LEAKS[:]
                 # fixed vertices' poses unchanged as well (shared with C06)
                 for j, (x, y) in enumerate(zip(before["v"], after["v"])):
                     if (x[1] or (ffp and j == 0)) and not nums_equal(x[3], y[3], se2=(x[2] == "PoseSE2")):
